@@ -58,7 +58,7 @@ int main (int argc, char **argv) {
 	episodes = atoi (argv[6]); ops = atoi (argv[7]); procs = atoi (argv[8]); seed = (unsigned) atoi (argv[9]);
 	n = nprod + ncons;
 	vtm_init (n + 1);
-	p_libsys_init ();
+	p_libsys_init (); p_libsys_shutdown (); p_libsys_init ();      /* the library is used after a shutdown / re-initialisation cycle */
 	vtm_open (base, 0);
 	b = p_shm_buffer_new (name, (psize) cap, NULL);
 	if (!b) { fprintf (stderr, "main: buffer create failed\n"); return 3; }
